@@ -56,8 +56,13 @@ class C10T(Prop):
             "UTF-8 inside and outside strings, escape fragments, control characters in strings, number near-misses, structural "
             "near-misses, literals (NaN, Infinity, True), comments, BOM, \\f \\v NBSP U+2028 as white space, label-pattern texts, "
             "nesting 1..300 balanced and unbalanced; up to 6 texts per run at the nesting limit (9999..10002 open containers). "
-            "Each fragment is placed bare or inside a CLOSE/NOTICE/REQ/COUNT frame.  Non-trivial = accepted by json.Valid, or "
-            "from the malformed stream; distinct = distinct bytes.")
+            "Each fragment is placed bare or inside a CLOSE/NOTICE/REQ/COUNT frame.  corpus/C10T holds the texts on which "
+            "the nine model mutants differed, the nesting limit on both sides and one harness regression.  Observed per text: "
+            "json.Valid, utf8.Valid, Unmarshal into RawMessage, the Decoder+UseNumber value through maps and through the "
+            "Token stream, json.Marshal of that value (compared byte for byte with the model's printer when it holds no "
+            "fraction/exponent number), the label pattern's capture, ParseClientMsg (class and value) and json.Unmarshal "
+            "into one of the 14 Go types.  Non-trivial = accepted by json.Valid, or from the malformed stream / fixed "
+            "lists / corpus; distinct = distinct bytes and target type.")
     trusted_base = COMMON_TRUSTED + [
         "compositionality of encoding/json on sub-values: the decoders of message.go re-parse json.RawMessage slices of the "
         "text; the model parses once and hands sub-values of the AST on (checked end-to-end by ParseClientMsg / Unmarshal on "
@@ -87,7 +92,7 @@ class C10T(Prop):
             PCLS[c["pcls"]], cobs(I, c["pobs"]), WTY[c["ty"]], cobs(I, c["dobs"]))
 
     def nontrivial_key(self, c):
-        if c["jvalid"] or _family(c) in ("mal", "fixed", "limit"):
+        if c["jvalid"] or _family(c) in ("mal", "fixed", "limit", "corpus"):
             return c["text"] + "/" + c["ty"]
         return None
 
